@@ -2,7 +2,7 @@
 (* Bounded instance of Backup: write bursts, idle stretches, a bucket that fails or stalls at any point, *)
 (* writes racing an upload, cancellation at any moment.                                                 *)
 EXTENDS Integers, Sequences, FiniteSets, TLC
-CONSTANTS Nil, MaxGen, Steps, Horizon, Modes
+CONSTANTS Nil, MaxGen, Steps, Horizon, Modes, MaxWait
 VARIABLES gen, last, pc, cur, until, s3, cancelled, now, ups, quiet, out
 B == INSTANCE Backup
 vars == <<gen, last, pc, cur, until, s3, cancelled, now, ups, quiet, out>>
